@@ -530,3 +530,12 @@ async fn proxy_tcp_connection_data_forwarding(
 
     Ok(())
 }
+
+/// Wrapper exposing the private destination reader to the verification harness.
+#[cfg(feature = "verif")]
+pub mod verif_api {
+    use super::*;
+    pub async fn read_socks_addr(stream: Arc<Stream>) -> Result<(String, u16)> {
+        super::read_socks_addr(stream).await.map(|a| (a.addr, a.port))
+    }
+}
